@@ -61,7 +61,7 @@ def run(rep, tier, seed):
                      {"failing_input_reproduced": True, "demonstration": "manif::%s<Jet> does not compile" % g})
             continue
         for scn in all_scenarios(g):
-            nsh = 12 if (scn == "jet_rplus_rminus" and g == "SO3") else 1      # the heavy one: one worker per path (mod 12)
+            nsh = 12 if (scn == "jet_rplus_rminus" and g == "SO3") else (4 if g in ("SE3", "SE_2_3", "SGal3") else 1)      # the heavy one: one worker per path (mod 12)
             for i in range(nsh):
                 items.append((g, scn, (i, nsh)))
     rep.parallel(items, lambda r, it: check(r, it[0], seed, only=it[1], shard=it[2]))
@@ -86,7 +86,7 @@ def check(rep, g, seed, only=None, shard=(0, 1)):
     if only is not None:
         scns = [x for x in scns if x == only]
     HARNESS.prefetch(g, scns)
-    decl = [("x", "G"), ("y", "G"), ("t", "T"), ("p", "P")]
+    decl = [("x", "G"), ("y", "G"), ("z", "G"), ("t", "T"), ("p", "P")]
     spec = {
         "jet_inverse": [("primal", "plain")], "jet_log": [("primal", "plain")], "jet_exp": [("primal", "plain")],
         "jet_compose_a": [("primal", "plain")], "jet_act": [("primal", "plain")],
